@@ -169,6 +169,10 @@ def k_seq(run, case):
             else PosePath3D(arr["p"].tolist() if dt == "int" else arr["p"].copy(), q)
         arr["p"] = arr["p"].astype(np.float64)  # exact
     else:
+        if smode == "xyzq" and rng.random() < .2:
+            # quaternions that were interpolated / averaged / integrated and never re-normalised
+            # (norms 0.8 .. 1.25): the orientation they denote is that of q / |q|
+            arr = dict(arr, q=gen.quats_of(arr["R"]) * rng.uniform(0.8, 1.25, size=(n, 1)))
         tr = gen.make_evo(arr, smode, stamped)
     tr2 = gen.make_evo(arr2, smode, stamped)
     if not case.get("fresh"):
